@@ -180,6 +180,13 @@ def inplace_chain(rec, root, rules, rng, steps=6, big=False, on_step=None):
             # the state is shown to someone between the steps: every rendering is a pure read
             # (very deep trees are left out: the renderers recurse per level and, with the raised
             # recursion limit of the shards, would exhaust the C stack)
+            # ... and so is asking for its value: with no argument at all, with None, with an empty dict (three forms
+            # of 'no assignment'; a tree with variables answers each of them with the documented ValueError)
+            for form in ((), (None,), ({},)):
+                try:
+                    cur.evaluate(*form)
+                except Exception:
+                    pass
             for read in ("terminal_text", "raw", "to_math_ml", "__str__"):
                 if read == "to_math_ml" and not _small(cur, 30):
                     continue   # MultiplyExpression.to_math_ml_fragment renders both operands twice: 2^depth on product chains
